@@ -134,6 +134,13 @@ func (bf *Filter) matches(data []byte) bool {
 		return false
 	}
 
+	// An empty bit array has no bits to test: treat it as matching
+	// everything, like Bitcoin Core, rather than dividing by zero when
+	// reducing the hash (CVE-2013-5700).
+	if len(bf.msgFilterLoad.Filter) == 0 {
+		return true
+	}
+
 	// The bloom filter does not contain the data if any of the bit offsets
 	// which result from hashing the data using each independent hash
 	// function are not set.  The shifts and masks below are a faster
@@ -190,6 +197,12 @@ func (bf *Filter) MatchesOutPoint(outpoint *wire.OutPoint) bool {
 // This function MUST be called with the filter lock held.
 func (bf *Filter) add(data []byte) {
 	if bf.msgFilterLoad == nil {
+		return
+	}
+
+	// Nothing can be set in an empty bit array (and reducing the hash
+	// modulo zero bits would divide by zero).
+	if len(bf.msgFilterLoad.Filter) == 0 {
 		return
 	}
 
